@@ -142,6 +142,11 @@ STATEMENTS = [
     ("refutable-pattern", "let (x17, true) = w17p;"),
     ("refutable-pattern", "let E17::B(x17) = w17e;"),
     ("refutable-pattern", "let S17 { a: 0u8..=9u8, .. } = w17s;"),
+    # a refutable part AFTER a struct pattern (the columns that follow a struct pattern must not be dropped)
+    ("refutable-pattern", "let (S17 { a: x17, b: y17 }, 1u8) = (w17s, w17a);"),
+    ("refutable-pattern", "let (S17 { a: x17, .. }, true, z17) = (w17s, w17t, w17a);"),
+    ("refutable-pattern", "let ((x17, S17 { a: y17, b: z17 }), E17::B(v17)) = ((w17a, w17s), w17e);"),
+    ("refutable-pattern", "for (S17 { a: x17, b: y17 }, 0u8) in [(w17s, w17a)] { w17m = x17; }"),
     ("refutable-pattern", "let 0u8..=254u8 = w17a;"),
     ("refutable-pattern", "for 1u8 in w17arr { w17m = 0u8; }"),
     ("refutable-pattern", "for (0u8, y17) in [w17p] { w17m = 0u8; }"),
